@@ -8,6 +8,7 @@ order, under which capture, and what text it really wrote.
 """
 import asyncio
 import io
+import os
 import sys
 import types
 import warnings
@@ -244,6 +245,15 @@ class Peer:
         if kind == 'warn':
             warnings.warn('sim warning at ' + pid, UserWarning)
             return None
+        if kind == 'rmcwd':
+            # code under test that works inside a temporary directory and leaves the process
+            # there after the directory is gone
+            if self.mode == 'real':
+                import tempfile
+                d = tempfile.mkdtemp(prefix='gone', dir=LOG.root)
+                os.chdir(d)
+                os.rmdir(d)
+            return None
         return None
 
     # -- API used by generated code ---------------------------------------
@@ -256,6 +266,9 @@ class Peer:
                 return Val(tok(pid, n, wrong=True))
             if f['kind'] == 'bad_repr':
                 return BadRepr(tok(pid, n))
+            if f['kind'] == 'nonascii':
+                # an answer the source text does not show: it has a character outside ascii
+                return Val(tok(pid, n) + ' \u2192')
         return Val(tok(pid, n))
 
     def emit(self, pid):
